@@ -85,6 +85,14 @@ def to_coq(c):
         return "CStart %s %d %s %d %s %s %d" % (
             segs(c.get("input")), obs_err(o), o.get("id") or "0", o.get("typ", 0),
             coq_str(o.get("name", "")), values(o.get("fields")), o.get("alloc", 0))
+    if op == "real":
+        pr = {"helloRequest": 1, "dialRequest": 2, "writeRequest": 3, "readRequest": 4, "statusRequest": 5,
+              "closeRequest": 6, "dialSideRequest": 8, "dialSide2Request": 9}[c["name"]]
+        rerr = {"ok": 0, "eof": 1, "lenoverflow": 3, "hang": 5, "ctx": 5}.get(o.get("rerr", ""), 8)
+        return "CReal %d %s %s %s %d %s %d %s %s %d %s %d %s %d %s" % (
+            pr, coq_str(c["name"]), values(c.get("sent")), segs(c.get("input")), obs_err(o), o.get("id") or "0",
+            o.get("typ", 0), coq_str(o.get("name", "")), values(o.get("fields")), o.get("alloc", 0),
+            coq_str(c["rname"]), c.get("cap", 0), segs(c.get("reply")), rerr, values(o.get("rfields")))
     if op == "tread":
         return "CTRead %d %d %s %d" % (c["buflen"], c["replen"], "true" if o.get("err") == "ok" else "false",
                                        o.get("n", 0))
@@ -94,12 +102,59 @@ def to_coq(c):
     raise ValueError(op)
 
 
+def seg_bytes(ss):
+    out = bytearray()
+    for s in ss or []:
+        if "rep" in s:
+            out += bytes([s["rep"][0]]) * s["rep"][1]
+        else:
+            out += bytes.fromhex(s.get("hex", ""))
+    return bytes(out)
+
+
+def canon(f):
+    """A field value as the property compares it (what was encoded vs what was decoded)."""
+    k = f["k"]
+    if k == "u64":
+        return (k, int(f.get("u", "0")))
+    if k == "int":
+        return (k, int(f.get("i", "0")))
+    if k == "bytes":
+        return (k, seg_bytes(f.get("b")))
+    if f.get("nil") or int(f.get("i", "0")) == 0:
+        return (k, None)                       # error code 0 is "no error" on the wire
+    return (k, int(f.get("i", "0")), seg_bytes(f.get("b")))
+
+
+def same_fields(a, b):
+    return [canon(f) for f in a or []] == [canon(f) for f in b or []]
+
+
 def impl_oracle(c):
     """Implementation-only reading of the property on one case: returns a
     description of the failure, or None."""
     o = c["obs"]
     if o.get("crash"):
         return "decoding crashed the process: %s" % o["crash"][:200]
+    if c["op"] == "real":
+        # every call kind through the real client transport and the real server entry
+        if o.get("err") != "ok":
+            return "request frame: the server entry rejected what the real client sent (%s)" % o.get("err")
+        if c["name"] != "statusRequest" and (o.get("name") != c["name"] or not same_fields(o.get("fields"), c.get("sent"))):
+            return "request frame: the server entry decoded other field values than the client encoded"
+        want = "ok" if c["scen"] in ("ok", "tail") or (c["scen"] == "cut" and not c.get("cut")) else "eof"
+        if o.get("rerr") != want:
+            return "reply frame: scenario %s (%d bytes): the caller got %r, expected %r" % (c["scen"], c.get("cut", 0), o.get("rerr"), want)
+        if want == "ok" and not same_fields(o.get("rfields"), c.get("rsent")):
+            return "reply frame: the caller sees other field values than the peer encoded"
+        return None
+    if c["op"] == "dec" and c.get("sent") is not None and c["stream"] in ("roundtrip", "err-empty-message"):
+        if o.get("err") != "ok":
+            return "roundtrip: a well-formed body was rejected (%s)" % o.get("err")
+        if not same_fields(o.get("fields"), c["sent"]):
+            return "roundtrip: decoded field values differ from the encoded ones"
+        if o.get("count") != seglen(c.get("input")):
+            return "roundtrip: consumed %r bytes of the %d produced" % (o.get("count"), seglen(c.get("input")))
     inlen = seglen(c.get("input"))
     if c["op"] in ("dec", "start") and o.get("alloc", 0) > 8 * inlen + 1024 * 1024:
         return "decoding %d input bytes allocated %d bytes" % (inlen, o["alloc"])
@@ -131,7 +186,8 @@ def explore(ck, binp, seed, ncases, model_ok, first):
         trivial = seglen(c.get("input")) == 0 and c["op"] in ("dec", "start")
         ck.count(c["stream"], key=(c["op"], c.get("name"), json.dumps(c.get("input")),
                                    json.dumps(c.get("fields")), c.get("cap"), c.get("maxread"), c.get("avail"),
-                                   c.get("buflen"), c.get("replen")),
+                                   c.get("buflen"), c.get("replen"), c.get("shape"), c.get("scen"), json.dumps(c.get("sent")),
+                                   json.dumps(c.get("rsent")), c.get("cut")),
                  trivial=trivial)
         why = impl_oracle(c)
         if why:
@@ -197,7 +253,7 @@ def explore(ck, binp, seed, ncases, model_ok, first):
 
 
 def run(ck):
-    ncases = 3100 if not ck.thorough else 24500
+    ncases = 3900 if not ck.thorough else 25300
     ck.gen()
     built = ck.coq_make(MODEL + PROOFS, clean=ck.thorough)
     ck.obligations = ck.count_statements(STATEMENT_FILES)
@@ -222,10 +278,14 @@ def run(ck):
         checker_cmd="bin/check C13 (gen -> make -C coq theories/Props/C13.vo -> Print Assumptions audit"
                     " -> harness c13 vs vm_compute of Sni/WireCorr.v)",
         trusted=["Coq 8.16.1 kernel + vm_compute", "translator gen/wire.go (field lists, codes, pairing, constants)",
-                 "harness/cmd/c13 + checks/c13.py comparison", "sniproxy/verif_export.go shim",
+                 "harness/cmd/c13 + checks/c13.py comparison", "sniproxy/verif_export.go, verif_readers.go, verif_rpc.go shims",
                  "modelled not verified: io.ReadFull/io.CopyN/bytes.Buffer growth, websocket framing"],
         rule="seeded generation (splitmix64) over {encode, roundtrip, prefix, tail, mutated-length, garbage, "
-             "request-frame, reply-frame} plus fixed hostile-length and read-size frames; a case is non-trivial "
+             "request-frame, reply-frame} plus fixed hostile-length and read-size frames, all 256 error codes, empty "
+             "error messages, >64 KiB fields cut inside, tails around end()'s buffer sizes, every schema under six "
+             "reader delivery shapes (one byte, half, <=7 bytes, zero-length reads, data together with io.EOF), and "
+             "every call kind through the real client transport and the real server entry with well-formed / cut / "
+             "tailed / error-byte replies; a case is non-trivial "
              "unless its input is empty; distinct = distinct (op, message, input, fields, cap)",
         assumptions=["64-bit int", "the writer given to the encoder does not fail",
                      "reply trailing bytes are discarded by design (transport.go TODO)"])
